@@ -374,15 +374,28 @@ class Gen:
                                              'XID_Start', 'whitespace']))
             if x < o['p_any'] + o['p_builtin'] + o['p_diff']:
                 self.bump('diff')
+                if r.random() < 0.3:
+                    # a removed range that swallows a whole range of the left operand from its first character and
+                    # reaches into the following ones (the case remove_ranges must keep the removed range for)
+                    self.bump('diff_spanning')
+                    a = self.char()
+                    left = [(a, a + r.randint(0, 2)), (a + 4, a + 4 + r.randint(0, 3))]
+                    if r.random() < 0.5:
+                        left.append((a + 10, a + 12))
+                    hi = r.choice([a + 4, a + 5, a + 8, a + 11])
+                    return ('diff', ('set', left), ('set', [(a - r.choice([0, 0, 1]), hi)]))
                 return ('diff', self.cls(1), self.cls(1))
             x = r.random()
             if x < 0.45:
                 return ('char', self.char())
             if x < 0.65:
                 # an empty literal "" (matches the empty string) now and then
-                k = 0 if r.random() < 0.04 else r.randint(1, 3)
+                x2 = r.random()
+                k = 0 if x2 < 0.04 else (r.randint(18, 24) if x2 < 0.07 else r.randint(1, 3))
                 if k == 0:
                     self.bump('empty_str')
+                if k >= 18:
+                    self.bump('long_str')      # a long chain of single-predecessor (inlined) states
                 return ('str', [self.char() for _ in range(k)])
             return self.cls(1) if r.random() < 0.3 else ('set', self.cls(2)[1]) if False else self.set_()
         x = r.random()
